@@ -139,6 +139,22 @@ impl Oracle for C11 {
                 );
             }
         }
+        // the same after text protection (protect_text edits annotations and the data index by hand)
+        if !t.post_model.live_anns().is_empty() {
+            let (mut store, _) = replay_real(&hist);
+            if store.protect_text(TextValidationMode::Both).is_ok() {
+                self.roundtrips.fetch_add(1, Ordering::Relaxed);
+                let file = format!("{}/{:?}.p.store.stam.cbor", self.workdir, std::thread::current().id()).replace(['(', ')'], "");
+                if let Some(f) = cbor_roundtrip(&mut store, &file, false) {
+                    rep.fail(
+                        &format!("after-protect_text|{}", f.symptom),
+                        t.ord,
+                        || f.detail.clone(),
+                        || json!({"history": history_json(&hist, None), "then": "protect_text(Both)"}),
+                    );
+                }
+            }
+        }
         true
     }
 }
